@@ -40,7 +40,7 @@ def gen_map(rng, depth_dir):
             elif form == 4:    # host only / port only / empty host
                 lines.append(f"{t}{desc}\t/{rng.choice(LOCAL)}\t{rng.choice(['', 'example.org'])}\t{rng.choice(['', '70'])}")
             elif form == 5:    # URL:
-                lines.append(f"h{desc}\t{rng.choice(['URL:http://example.org/', 'URL:https://a.b/c?d=e', '/URL:http://x/'])}")
+                lines.append(f"h{desc}\t{rng.choice(['URL:http://example.org/', 'URL:https://a.b/c?d=e', '/URL:http://x/', 'URL:mailto:admin@example.org', 'URL:news:comp.infosystems.gopher', 'URL:tel:+15550100'])}")
             else:              # extra fields, padding
                 lines.append(f"{t}{desc} \t /{rng.choice(LOCAL)} \t\t\t+")
     eol = rng.choice(["\n", "\r\n"])
@@ -132,6 +132,24 @@ def run(ctx):
             text = data.decode("utf-8", "surrogateescape")
             if "info" in kinds and "remote" in kinds and any(("\t" in ln and not ln.split("\t")[1].strip().startswith(("/", "URL:")) and ln.split("\t")[1].strip()) for ln in text.split("\n")):
                 res.nontrivial.add(data)
+            # the same gophermap drives the listing in every protocol: names and link targets as a client reads them
+            try:
+                from props import c06 as _c06
+                waptop = cfg.get("protocols.wap.WAPProtocol", "waptop")
+                base_v, _r0 = _c06.views("gopher", cfg, sel, waptop)
+                for p_ in ("http", "wap", "gemini", "spartan"):
+                    v_, _r1 = _c06.views(p_, cfg, sel, waptop)
+                    res.evaluations += 1
+                    if base_v is None or v_ is None:
+                        continue
+                    a_ = base_v if p_ in ("http", "wap") else [(_c06.bsr(n), t) for n, t in base_v]
+                    if a_ != v_:
+                        diff = next(((x, y) for x, y in zip(a_, v_) if x != y), (len(a_), len(v_)))
+                        res.violation(f"C09:protocols-differ:{p_}", "the same gophermap is rendered with different entries or link targets in another protocol",
+                                      {"dir": sel, "gophermap": data, "protocol": p_}, observed=str(diff[1])[:200], required=str(diff[0])[:200],
+                                      replay={"dir": d, "gophermap_latin1": data.decode("latin-1"), "view": p_, "gplus": False, "abstract": has_abs})
+            except (AttributeError, IndexError, ValueError) as e_:      # a listing the client-side readers cannot read: left to the model comparison
+                res.count("cross-protocol:unreadable:" + type(e_).__name__)
             for view, gplus in listing.VIEWS:
                 rows, r = listing.real_rows(view, gplus, cfg, sel)
                 res.evaluations += 1
